@@ -56,6 +56,37 @@ theorem C20_pub_fresh (H : Hash) (now : Int) (s : Store) (op : Op) (id : String)
         · simp only [hv, if_false]
           exact ⟨_, lookup_set_self _ _ _, key _⟩
 
+/-- **Generated ids**: creating with an empty id stores the publication under the id `g` the collection
+generated (non-empty and new — what `GenerateUniqueId` guarantees and the monitor checks): the record
+carries `g`, its version hashes `g` with the content, its publish time is `now`, and no other
+publication changes. -/
+theorem C20_pub_create_generated (H : Hash) (now : Int) (s : Store) (p : Pub) (g : String)
+    (hg : g ≠ "") (hfresh : lookup g s = none) :
+    (step H now s (.createGen p g)).2 = .ok ∧
+    (∃ q, lookup g (step H now s (.createGen p g)).1 = some q ∧ q.id = g ∧ q.body = p.body ∧
+      q.mediaType = p.mediaType ∧ q.version = mint H q ∧ q.publishTime = some now) ∧
+    (∀ m, m ≠ g → lookup m (step H now s (.createGen p g)).1 = lookup m s) := by
+  have hc : ¬ (g = "" ∨ (lookup g s).isSome = true) := by simp [hg, hfresh]
+  simp only [step, hc, if_false]
+  refine ⟨?_, ⟨_, lookup_set_self _ _ _, rfl, rfl, rfl, (computed_version H now _).1, rfl⟩, ?_⟩
+  · first | trivial | rfl
+  intro m hm
+  exact lookup_set_other hm _ _
+
+/-- **Update mask `audience.name`**: a successful update under that mask with an audience in the request
+stores the request's audience name (body and media type kept unless masked too) and the new version
+hashes that name. -/
+theorem C20_pub_update_audience_name (H : Hash) (now : Int) (s : Store) (p cur : Pub) (a : Audience)
+    (b m : Bool) (v : String) (hid : p.id ≠ "") (hl : lookup p.id s = some cur)
+    (hv : ¬ (v ≠ "" ∧ cur.version ≠ v)) (ha : p.audience = some a) :
+    ∃ q, lookup p.id (step H now s (.update p (.fields b m .name) v)).1 = some q ∧
+      q.audience.map (·.name) = some a.name ∧
+      q.version = H cur.id (if b then p.body else cur.body) (if m then p.mediaType else cur.mediaType) a.name := by
+  simp only [step, hid, if_false, hl, hv]
+  refine ⟨_, lookup_set_self _ _ _, ?_, ?_⟩
+  · simp [computed, mergeAudience, ha]
+  · simp [computed, mint, mergeAudience, ha]
+
 /-- **Version-checked update and delete**: with a non-empty version different from the stored one
 both fail with FailedPrecondition and change nothing. -/
 theorem C20_pub_version_check (H : Hash) (now : Int) (s : Store) (cur : Pub) (id v : String)
